@@ -1,0 +1,27 @@
+//go:build verif
+
+package pager
+
+// Contracts for contract-based deductive verification (read by /verif/govc). Comment-only.
+
+/*@
+-- Layout (C19): every character of the text ends up in m.lines. The line under construction must have
+-- been committed when Layout returns: "the pager presents every line of its text, including a last line
+-- with no terminator".
+pred LinesOK(m *Model) = forall i in 0..len(m.lines): m.lines[i] != nil
+
+func (m *Model) Layout()
+  ensures C19_lines: LinesOK(m)
+  exit assert C19_lastline: len(l.characters) == 0 || (len(m.lines) > 0 && m.lines[len(m.lines)-1] == l)
+  loop 1 invariant lnn: l != nil && LinesOK(m)
+  loop 2 invariant lnn: l != nil && LinesOK(m)
+
+-- Draw clamps the scroll offset to the content and never panics for any window size.
+func (m *Model) Draw(win vaxis.Window)
+  requires lines: LinesOK(m)
+  loop 1 invariant lines: LinesOK(m) && WinOK(win)
+  loop 2 invariant lines: LinesOK(m) && WinOK(win)
+  requires win: WinOK(win) && win.Vx != nil && ref(win.Vx.charCache) != 0
+  ensures C19_clamp_lo: 0 <= m.Offset
+  ensures C19_clamp_hi: len(m.lines) >= win.Height ==> m.Offset <= len(m.lines) - win.Height
+@*/
